@@ -218,11 +218,12 @@ def WellTypedAt (symbols : List (String × SymType)) (r : Row) (name : String) :
   | some .bool, .bool _ | some .bool, .nil => True
   | some .string, .string _ | some .string, .nil => True
   | some .int64, .int64 _ | some .int64, .int32 _ | some .int64, .nil => True
-  | some .float64, .float64 _ | some .float64, .nil => True
+  | some .float64, .float64 _ _ | some .float64, .nil => True
   | some .datetime, .time _ | some .datetime, .nil => True
   | _, _ => False
 
-/-- the filter compares a symbol with a constant of the symbol's declared type -/
+/-- every atom of the filter compares a symbol with a constant of the symbol's declared type (or
+    tests a symbol of a scalar type for null) -/
 def FilterTyped (symbols : List (String × SymType)) : Filter → Prop
   | .tt => True
   | .cmpBool n _ _ => symbols.lookup n = some .bool
@@ -231,13 +232,24 @@ def FilterTyped (symbols : List (String × SymType)) : Filter → Prop
   | .cmpStr n _ _ => symbols.lookup n = some .string
   | .cmpTime n _ _ => symbols.lookup n = some .datetime
   | .isNull n | .notNull n => ∃ t, symbols.lookup n = some t ∧ t ≠ .other
+  | .and a b | .or a b => FilterTyped symbols a ∧ FilterTyped symbols b
+  | .not a => FilterTyped symbols a
 
 /-- **objectz evaluates the filter fragment like the bolt row cursor** (typed nil pointers inside
     the interface included) -/
 theorem obj_eval_eq_bolt (st : ObjStore) (r : Row) (f : Filter) (hf : FilterTyped st.symbols f)
-    (hw : ∀ n, f.symbol = some n → WellTypedAt st.symbols r n) :
+    (hw : ∀ n ∈ f.symbols, WellTypedAt st.symbols r n) :
     evalFilter (objSymbols st r) f = evalFilter (boltSymbols r) f := by
-  cases f with
+  induction f with
+  | and a b iha ihb =>
+    simp only [evalFilter]
+    rw [iha hf.1 (fun n hn => hw n (List.mem_append_left _ hn)), ihb hf.2 (fun n hn => hw n (List.mem_append_right _ hn))]
+  | or a b iha ihb =>
+    simp only [evalFilter]
+    rw [iha hf.1 (fun n hn => hw n (List.mem_append_left _ hn)), ihb hf.2 (fun n hn => hw n (List.mem_append_right _ hn))]
+  | not a iha =>
+    simp only [evalFilter]
+    rw [iha hf hw]
   | tt => rfl
   | cmpBool n op v =>
     simp only [FilterTyped] at hf
@@ -256,17 +268,115 @@ theorem obj_eval_eq_bolt (st : ObjStore) (r : Row) (f : Filter) (hf : FilterType
     simp [evalFilter, objSymbols, boltSymbols, objEval, hf]
   | isNull n =>
     obtain ⟨t, ht, hne⟩ := hf
-    have hw := hw n rfl
+    have hw := hw n (by simp [Filter.symbols])
     simp only [WellTypedAt, ht] at hw
     simp only [evalFilter, objSymbols, boltSymbols, objEval, ht]
     cases t <;> cases hv : evalSym n r <;> simp_all [ifaceIsNil, fieldToBool, fieldToString, fieldToInt64,
       fieldToFloat64, fieldToDatetime]
   | notNull n =>
     obtain ⟨t, ht, hne⟩ := hf
-    have hw := hw n rfl
+    have hw := hw n (by simp [Filter.symbols])
     simp only [WellTypedAt, ht] at hw
     simp only [evalFilter, objSymbols, boltSymbols, objEval, ht]
     cases t <;> cases hv : evalSym n r <;> simp_all [ifaceIsNil, fieldToBool, fieldToString, fieldToInt64,
       fieldToFloat64, fieldToDatetime]
+
+/-! ### any filter that reads symbols through their declared type -/
+
+/-- what an `ast` node learns about a symbol from an `ast.Symbols` when it calls the accessor of the
+    symbol's declared type — as `BoolSymbolNode`, `StringSymbolNode`, `Int64SymbolNode` (also for its
+    `EvalString`), `Float64SymbolNode`, `DatetimeSymbolNode` all do — and `IsNil` -/
+inductive TypedVal where
+  | bool (v : Option Bool) | str (v : Option Bytes) | int (v : Option Int) | float (v : Option Nat) | time (v : Option Int)
+  | none
+  deriving DecidableEq
+
+def typedView (decl : List (String × SymType)) (s : Symbols) (n : String) : TypedVal × Bool :=
+  (match decl.lookup n with
+   | some .bool => .bool (s.evalBool n)
+   | some .string => .str (s.evalString n)
+   | some .int64 => .int (s.evalInt64 n)
+   | some .float64 => .float (s.evalFloat64 n)
+   | some .datetime => .time (s.evalDatetime n)
+   | _ => .none,
+   s.isNil n)
+
+/-- the evaluation of a filter is a function of the typed views of the symbols in `N` — true of every
+    filter built from typed symbol nodes over those symbols (set functions, which open set cursors,
+    are not of this kind) -/
+def TypedLocal (decl : List (String × SymType)) (N : List String) (ev : Symbols → Bool) : Prop :=
+  ∀ s1 s2, (∀ n ∈ N, typedView decl s1 n = typedView decl s2 n) → ev s1 = ev s2
+
+/-- on a well-typed object the object cursor and the bolt row cursor present the same typed view -/
+theorem typedView_obj_eq_bolt (st : ObjStore) (r : Row) (n : String) (hw : WellTypedAt st.symbols r n) :
+    typedView st.symbols (objSymbols st r) n = typedView st.symbols (boltSymbols r) n := by
+  unfold WellTypedAt at hw
+  unfold typedView
+  cases ht : st.symbols.lookup n with
+  | none => simp [ht] at hw
+  | some t =>
+    simp only [ht] at hw
+    cases t <;> cases hv : evalSym n r <;> simp_all [objSymbols, boltSymbols, objEval, ifaceIsNil, fieldToBool,
+      fieldToString, fieldToInt64, fieldToFloat64, fieldToDatetime]
+
+/-- the filters of the fragment are typed-local in their symbols -/
+theorem evalFilter_typedLocal (decl : List (String × SymType)) (f : Filter) (hf : FilterTyped decl f) :
+    TypedLocal decl f.symbols (fun s => evalFilter s f) := by
+  induction f with
+  | and a b iha ihb =>
+    intro s1 s2 h
+    have e1 : evalFilter s1 a = evalFilter s2 a := iha hf.1 s1 s2 (fun n hn => h n (List.mem_append_left _ hn))
+    have e2 : evalFilter s1 b = evalFilter s2 b := ihb hf.2 s1 s2 (fun n hn => h n (List.mem_append_right _ hn))
+    simp only [evalFilter, e1, e2]
+  | or a b iha ihb =>
+    intro s1 s2 h
+    have e1 : evalFilter s1 a = evalFilter s2 a := iha hf.1 s1 s2 (fun n hn => h n (List.mem_append_left _ hn))
+    have e2 : evalFilter s1 b = evalFilter s2 b := ihb hf.2 s1 s2 (fun n hn => h n (List.mem_append_right _ hn))
+    simp only [evalFilter, e1, e2]
+  | not a iha =>
+    intro s1 s2 h
+    have e1 : evalFilter s1 a = evalFilter s2 a := iha hf s1 s2 h
+    simp only [evalFilter, e1]
+  | tt => intro _ _ _; rfl
+  | cmpBool n op v =>
+    intro s1 s2 h
+    have := h n (by simp [Filter.symbols])
+    simp only [FilterTyped] at hf
+    simp only [typedView, hf, Prod.mk.injEq, TypedVal.bool.injEq] at this
+    simp only [evalFilter, this.1]
+  | cmpInt n op v =>
+    intro s1 s2 h
+    have := h n (by simp [Filter.symbols])
+    simp only [FilterTyped] at hf
+    simp only [typedView, hf, Prod.mk.injEq, TypedVal.int.injEq] at this
+    simp only [evalFilter, this.1]
+  | cmpFloat n op v =>
+    intro s1 s2 h
+    have := h n (by simp [Filter.symbols])
+    simp only [FilterTyped] at hf
+    simp only [typedView, hf, Prod.mk.injEq, TypedVal.float.injEq] at this
+    simp only [evalFilter, this.1]
+  | cmpStr n op v =>
+    intro s1 s2 h
+    have := h n (by simp [Filter.symbols])
+    simp only [FilterTyped] at hf
+    simp only [typedView, hf, Prod.mk.injEq, TypedVal.str.injEq] at this
+    simp only [evalFilter, this.1]
+  | cmpTime n op v =>
+    intro s1 s2 h
+    have := h n (by simp [Filter.symbols])
+    simp only [FilterTyped] at hf
+    simp only [typedView, hf, Prod.mk.injEq, TypedVal.time.injEq] at this
+    simp only [evalFilter, this.1]
+  | isNull n =>
+    intro s1 s2 h
+    have := h n (by simp [Filter.symbols])
+    simp only [typedView, Prod.mk.injEq] at this
+    simp only [evalFilter, this.2]
+  | notNull n =>
+    intro s1 s2 h
+    have := h n (by simp [Filter.symbols])
+    simp only [typedView, Prod.mk.injEq] at this
+    simp only [evalFilter, this.2]
 
 end StorageModel.Query
